@@ -10,6 +10,9 @@ use std::panic::{catch_unwind, AssertUnwindSafe};
 use std::sync::{Mutex, OnceLock};
 
 pub fn ser(a: &dyn Aml) -> Vec<u8> {
+    // an object may be serialised any number of times: the bytes judged are those of an object
+    // that has been serialised before (into a sink that keeps nothing)
+    crate::aml::build::peek(a);
     let mut v = Vec::new();
     a.to_aml_bytes(&mut v);
     v
@@ -318,7 +321,10 @@ pub fn mk_sllbi(loc: u8, dt: u8, mts: u8, unit: u64, ni: u32, nt: u32, ops: &[Sl
         M::Size64k,
     ][mts as usize];
     let mut s = hmat::SystemLocality::new(lt, d, m, unit, ni as usize, nt as usize);
-    for o in ops {
+    for (k, o) in ops.iter().enumerate() {
+        if k <= 2 || k == ops.len() / 2 {
+            crate::aml::build::peek(&s); // serialised between two setter calls
+        }
         match o {
             SllbiOp::Init(i, v) => s.set_initiator_value(*i as usize, *v),
             SllbiOp::Target(i, v) => s.set_target_value(*i as usize, *v),
@@ -348,7 +354,10 @@ pub fn mk_side_cache(pd: u32, size: u64, total: u8, level: u8, assoc: u8, policy
         _ => hmat::WritePolicy::Writethrough,
     };
     let mut c = hmat::MemorySideCache::new(pd, size, cl(total), cl(level), a, w, line);
-    for h in handles {
+    for (k, h) in handles.iter().enumerate() {
+        if k == 1 {
+            crate::aml::build::peek(&c);
+        }
         c.add_smbios_handle(*h);
     }
     if handles.len() == 65_535 {
@@ -440,7 +449,11 @@ pub fn mk_cfmws(base: u64, size: u64, arith: u8, gran: u8, ways: u8, qtg: u16, r
             _ => f.fixed_configuration(),
         };
     }
-    for t in targets {
+    for (k, t) in targets.iter().enumerate() {
+        if k == 1 && targets.len() as u32 == super::gen::WAYS_COUNT[ways as usize] {
+            // (a window whose target list does not match its ways refuses to serialise)
+            let _ = catch_unwind(AssertUnwindSafe(|| crate::aml::build::peek(&f)));
+        }
         f.add_target(*t);
     }
     f
